@@ -96,11 +96,11 @@ uint32_t COTmrGetTicks(CO_TMR *tmr, uint16_t time, uint32_t unit)
     if (freq == 0u) {
         ticks = 0u;
     } else {
-        if (freq <= unit) {
-            ticks = (uint32_t)time / (unit / freq);
-        } else {
-            ticks = (uint32_t)time * (freq / unit);
-        }
+        /* ticks = (time * freq) / unit, calculated without 32bit
+         * overflow for the supported time units
+         */
+        ticks = ((uint32_t)time * (freq / unit)) +
+                (((uint32_t)time * (freq % unit)) / unit);
     }
     return (ticks);
 }
@@ -114,7 +114,8 @@ uint16_t COTmrGetMinTime(CO_TMR *tmr, uint32_t unit)
         time = 0u;
     } else {
         if (freq <= unit) {
-            time = (uint16_t)(unit / freq);
+            /* smallest time, which is at least one timer tick */
+            time = (uint16_t)((unit + (freq - 1u)) / freq);
         }
     }
     return (time);
